@@ -55,3 +55,85 @@ def unit():
              "combination exactly once (completeness), components are input elements")
     U.assume("sum(scores[i] for i in x) is the key passed to sorted_combinations (the score of a combination): not re-derived here")
     return U
+
+
+ENT = TupS(INT, INT, SeqS(INT), INT)      # heap entry: (key, combination length, combination, index of its last element)
+HEAP = SeqS(ENT)
+
+
+def heapq_env(U):
+    """trusted contracts of heapq over a list of entries; isheap is the (uninterpreted) heap-shape predicate the module maintains.
+    The tuple order is lexicographic, so the popped minimum has the smallest first component (the key)."""
+    U.spec_fun("isheap", [HEAP], BOOL)
+    m = U.library("heapq.heapify", {"x": HEAP})
+    m.updates_arg("x")
+    m.witness_fun("hsrc", [INT], INT, bound_to=None)
+    m.ensures("isheap(x) and len(x) == len(old(x))")
+    m.ensures("forall(j, 0, len(x), 0 <= hsrc(j) and hsrc(j) < len(old(x)) and same(x[j], old(x)[hsrc(j)]), trigger=x[j])", "same-entries(rearranged)")
+    m = U.library("heapq.heappop", {"heap": HEAP}, ENT)
+    m.updates_arg("heap")
+    m.requires("isheap(heap)", "heappop-on-a-heap")
+    m.raises("IndexError", when="len(heap) == 0")
+    m.witness_fun("psrc", [INT], INT, bound_to=None)
+    m.witness("pidx", INT, bound_to=None)
+    m.ensures("isheap(heap) and len(heap) == len(old(heap)) - 1")
+    m.ensures("0 <= pidx and pidx < len(old(heap)) and same(result, old(heap)[pidx])", "the-popped-entry-was-in-the-heap")
+    m.ensures("forall(i, 0, len(old(heap)), result[0] <= old(heap)[i][0], trigger=old(heap)[i])", "smallest-key(tuple-order-is-lexicographic)")
+    m.ensures("forall(j, 0, len(heap), 0 <= psrc(j) and psrc(j) < len(old(heap)) and same(heap[j], old(heap)[psrc(j)]), trigger=heap[j])",
+              "the-rest-stays(rearranged)")
+    m = U.library("heapq.heappush", {"heap": HEAP, "item": ENT})
+    m.updates_arg("heap")
+    m.requires("isheap(heap)", "heappush-on-a-heap")
+    m.witness_fun("qsrc", [INT], INT, bound_to=None)
+    m.ensures("isheap(heap) and len(heap) == len(old(heap)) + 1")
+    m.ensures("forall(j, 0, len(heap), same(heap[j], item) or (0 <= qsrc(j) and qsrc(j) < len(old(heap)) and same(heap[j], old(heap)[qsrc(j)])),"
+              " trigger=heap[j])", "old-entries-plus-the-new-one(rearranged)")
+
+
+def unit_stream():
+    """sorted_combinations against the stream contract the interval search relies on: keys non-decreasing, every yielded combination is a
+    strictly index-ordered tuple of input elements with its key alongside - for every key that never decreases when an element is appended.
+    (Completeness / exactly-once of the stream stays with the bounded layer.)"""
+    U = Unit("C17/sorted_combinations", "C17")
+    heapq_env(U)
+    U.var("cc", SeqS(INT))
+    U.var("ee", INT)
+    G = U.module("windpyutils/generic.py")
+    COMBK = TupS(SeqS(INT), INT)
+    m = G.function("sorted_combinations", {"elements": SeqS(INT), "key": FunS([SeqS(INT)], INT), "yield_key": BOOL}, yields=COMBK,
+                   locals={"priority_queue": HEAP, "sel_key": INT, "comb": SeqS(INT), "index": INT, "offset": INT, "i": INT, "e": INT,
+                           "new_comb": SeqS(INT)})
+    m.requires("yield_key")
+    m.requires("forall(cc, forall(ee, key(append(cc, ee)) >= key(cc)))", "the-key-never-decreases-when-an-element-is-appended")
+    entry_ok = lambda x: ("%(x)s[0] == key(%(x)s[2]) and %(x)s[1] == len(%(x)s[2]) and len(%(x)s[2]) >= 1 and 0 <= %(x)s[3] and %(x)s[3] < len(elements)"
+                          " and %(x)s[2][len(%(x)s[2]) - 1] == elements[%(x)s[3]]"
+                          " and forall(t, 0, len(%(x)s[2]), exists(u, 0, len(elements), %(x)s[2][t] == elements[u]))" % {"x": x})
+    # termination of the while loop is not claimed here (it follows from completeness / exactly-once: every combination enters the heap
+    # once; bounded layer)
+    l1 = m.loop(1).environment_driven()
+    l1.invariant("isheap(priority_queue)")
+    l1.invariant("forall(j, 0, len(priority_queue), %s, trigger=priority_queue[j])" % entry_ok("priority_queue[j]"), "heap-entries-are-well-formed")
+    l1.invariant("forall(j, 0, len(priority_queue), implies(len(yielded) > 0, yielded[len(yielded) - 1][1] <= priority_queue[j][0]),"
+                 " trigger=priority_queue[j])", "everything-still-in-the-heap-is-not-smaller-than-the-last-yielded-key")
+    l1.invariant("forall(p, 0, len(yielded), yielded[p][1] <= yielded[len(yielded) - 1][1] and yielded[p][1] == key(yielded[p][0]) and len(yielded[p][0]) >= 1"
+                 " and forall(t, 0, len(yielded[p][0]), exists(u, 0, len(elements), yielded[p][0][t] == elements[u])), trigger=yielded[p])",
+                 "yielded-so-far:keys-bounded-by-the-last-one")
+    l1.invariant("forall(p, 0, len(yielded), forall(q, p, len(yielded), yielded[p][1] <= yielded[q][1]))", "keys-non-decreasing")
+    l2 = m.loop(2)
+    l2.invariant("isheap(priority_queue) and len(yielded) > 0 and yielded[len(yielded) - 1][1] == sel_key and sel_key == key(comb) and len(comb) >= 1"
+                 " and offset == index + 1 and 0 <= index and index < len(elements)"
+                 " and forall(t, 0, len(comb), exists(u, 0, len(elements), comb[t] == elements[u]))")
+    l2.invariant("forall(j, 0, len(priority_queue), %s, trigger=priority_queue[j])" % entry_ok("priority_queue[j]"))
+    l2.invariant("forall(j, 0, len(priority_queue), sel_key <= priority_queue[j][0], trigger=priority_queue[j])")
+    l2.invariant("forall(p, 0, len(yielded), yielded[p][1] <= yielded[len(yielded) - 1][1] and yielded[p][1] == key(yielded[p][0]) and len(yielded[p][0]) >= 1"
+                 " and forall(t, 0, len(yielded[p][0]), exists(u, 0, len(elements), yielded[p][0][t] == elements[u])), trigger=yielded[p])")
+    l2.invariant("forall(p, 0, len(yielded), forall(q, p, len(yielded), yielded[p][1] <= yielded[q][1]))")
+    m.ensures("forall(p, 0, len(yielded), forall(q, p, len(yielded), yielded[p][1] <= yielded[q][1]))", "keys-non-decreasing")
+    m.ensures("forall(p, 0, len(yielded), forall(t, 0, len(yielded[p][0]), exists(u, 0, len(elements), yielded[p][0][t] == elements[u])))",
+              "components-are-elements-of-the-input")
+    m.ensures("forall(p, 0, len(yielded), yielded[p][1] == key(yielded[p][0]) and len(yielded[p][0]) >= 1, trigger=yielded[p])", "key-alongside,non-empty")
+    U.verify(None, "sorted_combinations")
+    U.assume("heapq (trusted): heapify / heappush / heappop keep the entries (rearranged) and heappop returns an entry with the smallest key; "
+             "tuple comparison is lexicographic")
+    U.assume("completeness / exactly-once of the combination stream and index-ordering of each tuple: bounded layer only")
+    return U
